@@ -386,6 +386,16 @@ pub fn run(env: &Env, run: &Run) -> (Stats, Coverage) {
             count(v, st);
         }));
     }
+    // (c') every run length up to a little over a page, for the class pairs that decide a label
+    {
+        let rep = |n: &str| reps.iter().find(|(c, _)| c == n).map(|(_, ch)| *ch);
+        let names = [("R", "L"), ("R", "EN"), ("AL", "AN"), ("R", "NSM"), ("L", "R"), ("R", "R"), ("AL", "L"), ("EN", "R")];
+        let pairs: Vec<(char, char)> = names.iter().filter_map(|(a, b)| Some((rep(a)?, rep(b)?))).collect();
+        st.merge(run_all_lengths(&pairs, run.tier.pick(4200, 16500), |s, st| {
+            let v = check_label(env, Prof::Ucm, s, st);
+            count(v, st);
+        }));
+    }
     // (d) W-method conformance against the specification automaton
     let strict = run.is_known("bidi_interior_nsm").is_some();
     let wm = if reps.len() == 23 {
